@@ -98,3 +98,41 @@ class RyuStubIntrinsics(Intrinsics):
         super()._register()
         self.table[PKG + ".ryuFtoaShortest"] = lambda eng, st, fr, args, ins: self._gen(eng, st, args, ins, PKG)
         self.table["strconv.ryuFtoaShortest"] = lambda eng, st, fr, args, ins: self._gen(eng, st, args, ins, "strconv")
+
+
+class RyuPairIntrinsics(Intrinsics):
+    """R1a: ryuDigits (the repository's and strconv's) = an injective recorder of its arguments in the digit buffer;
+    the harness's linkname stub for strconv.ryuFtoaShortest is redirected to strconv's lowered body."""
+
+    def _register(self):
+        super()._register()
+        H = PKG + "."
+
+        def record(which):
+            def h(eng, st, fr, args, ins):
+                d, lower, central, upper, c0, cup = args
+                pos = ins.get("pos")
+                cur = eng.deref(st, d, pos)
+                dsl = cur[0]
+                off = eng.need_int(st, dsl.off, pos, "digit buffer offset")
+                n = eng.need_int(st, dsl.len, pos, "digit buffer length")
+                if n < 24:
+                    raise EngineError("digit buffer shorter than 24 bytes")
+                arr = eng.load_path(st.mem[dsl.obj], dsl.path, st, pos)
+                rec = _bytes_le(lower, 8) + _bytes_le(central, 8) + _bytes_le(upper, 8)
+                arr = arr[:off] + tuple(rec) + arr[off + 24:]
+                st.mem[dsl.obj] = eng.store_path(st.mem[dsl.obj], dsl.path, arr, st, pos)
+                flags = z3.If(bl(c0), z3.BitVecVal(1, 64), z3.BitVecVal(0, 64)) | z3.If(bl(cup), z3.BitVecVal(2, 64), z3.BitVecVal(0, 64))
+                new = list(cur)
+                new[1] = simp(flags)      # nd
+                new[2] = 0                # dp (the caller subtracts q afterwards)
+                eng.store(st, d, tuple(new), pos)
+                return None
+            return h
+        self.table[H + "ryuDigits"] = record(PKG)
+        self.table["strconv.ryuDigits"] = record("strconv")
+
+        @self.reg(H + "verifStrconvRyu")
+        def redirect(eng, st, fr, args, ins):
+            eng.push_call(st, "strconv.ryuFtoaShortest", list(args), ins.get("r"))
+            return None
